@@ -8,7 +8,7 @@ from vlib import core, dom
 
 ID = "C08"
 GEN = ["water", "gas", "oil", "fluid"]
-PROPS = ["C08_pseudopressure.v"]
+PROPS = ["C08_pseudopressure.v", "C08_trapz_error.v"]
 
 
 def run(ctx):
